@@ -562,7 +562,12 @@ func newParamGroupedSlice(f reflect.StructField, c containerStore) (paramGrouped
 // any decorated value groups provided in further scopes.
 func (pt paramGroupedSlice) getDecoratedValues(c containerStore) (reflect.Value, bool) {
 	for _, c := range c.storesToRoot() {
-		if items, ok := c.getDecoratedValueGroup(pt.Group, pt.Type); ok {
+		if items, ok := c.getDecoratedValueGroup(pt.Group, pt.Type.Elem()); ok {
+			if items.Type() != pt.Type {
+				// e.g. the decorator returned []T and this
+				// consumer declared a named slice type of T.
+				items = items.Convert(pt.Type)
+			}
 			return items, true
 		}
 	}
